@@ -2256,3 +2256,15 @@ func init() {
 	registry["C10"].Meta.Rules["C10.11"] = txt + " (shared with C02.14; one of the two call sites serves the reopened handles)"
 	registry["C10"].Rules = append(registry["C10"].Rules, func(c *Ctx, r *Result) { denseModifyEncodedRule(c, r, "C10.11") })
 }
+
+func init() {
+	reg := registry["C01"]
+	reg.Meta.Rules["C01.15"] = registry["C06"].Meta.Rules["C06.8"] + " (shared with C06.8: a full Read of what was written goes through this loop)"
+	reg.Rules = append(reg.Rules, func(c *Ctx, r *Result) { everyChunkCopiedRule(c, r, "C01.15") })
+	reg.Meta.Rules["C01.16"] = registry["C09"].Meta.Rules["C09.13"] + " (shared with C09.13)"
+	reg.Rules = append(reg.Rules, func(c *Ctx, r *Result) { chunkKeyRule(c, r, "C01.16") })
+	reg.Meta.Rules["C01.17"] = registry["C04"].Meta.Rules["C04.6"] + " (shared with C04.6: in a version 0 file the first dataset would be allocated on the tail of the root name heap)"
+	reg.Rules = append(reg.Rules, func(c *Ctx, r *Result) { c.reservedSpanCovers(r, "C01.17") })
+	registry["C03"].Meta.Rules["C03.17"] = registry["C04"].Meta.Rules["C04.6"] + " (shared with C04.6: the structure whose tail is lost is the root group's name heap)"
+	registry["C03"].Rules = append(registry["C03"].Rules, func(c *Ctx, r *Result) { c.reservedSpanCovers(r, "C03.17") })
+}
